@@ -115,6 +115,8 @@ func runC15(r *core.Run) {
 	img := pool[r.Intn(4, "image")]
 	if r.Chance(25, "tdx-image?") {
 		img = pool[4+r.Intn(2, "tdx-image")]
+	} else if r.Chance(12, "caa-image?") {
+		img = pool[6] // SEV metadata with an SVSM calling-area section
 	}
 	mode := r.Intn(3, "mode") // 0 dry-run, 1 measurement-only, 2 both
 	q := Req{Image: img, OutDir: "out", Candidate: []string{"", "rc1"}[r.Intn(2, "candidate")], Overwrite: r.Bool("overwrite"),
